@@ -176,11 +176,11 @@ Definition has_closing (l : list stepobs) : bool := existsb (fun '(St k _ _ _ _)
 Definition pclass (c : case) : N :=
   match c with
   | Hist _ hang nbad steps =>
-      if negb ((hang =? 0) && (nbad =? 0)) then 9%N
-      else match first_class steps with
-           | 0%N => if has_closing steps then 0%N else 9%N
-           | c => c
-           end
+      (* what the tables read before a hang / an unexpected result show is reported as such *)
+      match first_class steps with
+      | 0%N => if negb ((hang =? 0) && (nbad =? 0)) then 9%N else if has_closing steps then 0%N else 9%N
+      | c => c
+      end
   | Sweep now ents lft _ bad => if negb (bad =? 0) then 9%N else sweep_class now ents lft
   | Locks _ bad steps => match locks_class steps with 0%N => if negb (bad =? 0) then 9%N else 0%N | c => c end
   | MidRace _ _ bad ph => match mid_class (flat_map xevs_of ph) with 0%N => if negb (bad =? 0) then 9%N else 0%N | c => c end
